@@ -370,14 +370,16 @@ def job_options(job):
             av, bv = frac_vals(rng, ak), frac_vals(rng, bk)
             for name in (base.get('ops') or job['ops']):
                 binary = name in BINARY + ['div']
-                if name in ('sqrt', 'norm', 'normalized'):
-                    # Study numbers: scalar + pseudoscalar-ish blade
-                    pass
+                ak_, av_ = ak, av
+                if name in ('sqrt',):
+                    # Study numbers: positive scalar part + one blade (floats: the square root is irrational)
+                    K = rng.randrange(1, 2 ** ref_alg.d)
+                    ak_, av_ = (0, K), [float(rng.choice([2, 3, 5])), float(rng.choice([1, -1])) * 0.5]
                 base_res = None
                 for v, alg in algs:
                     out['evaluations'] += 1
-                    pats.add((json.dumps(v, sort_keys=True), name, ak, bk))
-                    a, b = mv_from(alg, ak, list(av)), mv_from(alg, bk, list(bv))
+                    pats.add((json.dumps(v, sort_keys=True), name, ak_, bk))
+                    a, b = mv_from(alg, ak_, list(av_)), mv_from(alg, bk, list(bv))
                     r = _safe(lambda: getattr(alg, name)(a, b) if binary else getattr(alg, name)(a))
                     val = ('value', O.nz(fr.mv_to_ref(r[1]))) if r[0] == 'value' else r
                     if base_res is None:
